@@ -30,6 +30,15 @@ the fixed matrix flow type x edit class, which runs first in every tier --, the 
     the monitors (backup_roundtrip.<edit class>) compare behaviour: modified() of the original and of the loaded flow equal the
     generator's expectation (an edit was made or not), both hold a backup, and after revert() both are in exactly the state
     captured before backup() and report modified() False.
+(e) value classes: a flow carrying a value of a *subclass* of a serialisable type at a place where addons can put one (status code,
+    port, dns id, close code, address port; comment, marker, error message, sni, close reason, metadata values and keys, nested;
+    timestamps; raw content, message content, alpn), written between two ordinary flows by one writer.  Monitors
+    value_class.<class>: int_subclass (http.HTTPStatus, IntEnum, IntFlag, plain int subclass), bool_as_int, str_subclass (StrEnum,
+    str subclass overriding __str__/__repr__), float_subclass, bytes_subclass: the file loads completely, the special flow's
+    state equals (==) the original with every subclass instance replaced by its plain value, the neighbouring flows are intact;
+    buffer (bytearray, memoryview): not part of the format -- the save is refused and leaves the file unchanged;
+    number_subclass_custom_repr (user int/float subclass overriding __str__/__repr__): same oracle as int_subclass, classified
+    by that input condition.  A fixed matrix class x value x placement x flow kind runs first in every tier.
 (b) hostile bytes: byte/bit/length-prefix/type-tag mutations of valid files, structurally valid records that are not flow
     states (keys removed, values of the wrong type, unknown `type`, old/unknown/odd `version`, bytes keys), non-dict records,
     nestings of depth 10..5000, HAR look-alikes, random bytes; read through BytesIO or a BufferedReader.  Monitor:
@@ -79,9 +88,11 @@ RULE = (
     "the valid base file. Every 8th case (offset 4): a writer history of 3-8 saves on 1-2 writers where ~40% of the flows are unserialisable "
     "(8 fault kinds); signature = (set of fault kinds, writer variants, number of successful saves after a failed one). First in every run and "
     "every 8th case (offset 2): backup() + edit class {type-specific only, base only, both, none} on a flow of a given type, then save + load; "
-    "signature = (flow type, edit class)"
+    "signature = (flow type, edit class). First in every run and every 8th case (offset 6): a value of a subclass of int/str/float/bytes (or a buffer "
+    "object) at one of 23 placements in a flow written between two ordinary flows; signature = (value class, value type, placement, flow kind)"
 )
 ASSUMPTIONS = [
+    "value classes: a subclass instance of int / float / str / bytes is a serialisable value of that type (isinstance is what the writer tests) and must be stored as the plain value it equals; this is asserted for every class the unchanged writer accepts, i.e. all of them; bytearray and memoryview are not serialisable values (the writer documents bytes only) and must be refused at save time without touching the file; values whose public setter refuses them never reach a file and are only counted",
     "str values contain no lone surrogates (not encodable as UTF-8, cannot be produced by decoding network data with the codecs mitmproxy uses)",
     "tuples and lists are the same sequence in a state (the file format has one sequence type); comparison is otherwise type-strict",
     "metadata is restricted to None/bool/int/float/bytes/str/list/tuple/dict values as the property says",
